@@ -14,6 +14,9 @@ import DoltVerif.Lemmas.MutMapRefine
 import DoltVerif.Lemmas.MutContent
 import DoltVerif.Lemmas.OrdinalPath
 import DoltVerif.Lemmas.CursorOrder
+import DoltVerif.Lemmas.IterEnds
+import DoltVerif.Lemmas.Overlay
+import DoltVerif.Lemmas.MergeIter
 namespace DoltVerif.C11
 open DoltVerif.Prolly DoltVerif.SortedDict
 
@@ -370,6 +373,191 @@ theorem iterKeyRange_refines [Inhabited κ] {cmp : κ → κ → Ordering} (hc :
         have : ¬ (rank cmp t.flatten a < rank cmp t.flatten b) := by omega
         simp [this]
 
+/-! ### the two end cursors: IterAll, IterAllReverse, unbounded key-range ends -/
+
+theorem rankP_true (l : List (κ × ν)) : rankP (fun _ => true) l = 0 := by
+  unfold rankP; cases l <;> simp
+
+theorem rankP_false (l : List (κ × ν)) : rankP (fun _ => false) l = l.length := by
+  unfold rankP
+  have : ∀ (l : List (κ × ν)), l.takeWhile (fun _ => true) = l := by
+    intro l
+    induction l with
+    | nil => rfl
+    | cons a r ih => simp [ih]
+  simp [this]
+
+/-- a search cursor whose ordinal is below `Count` sits on an item -/
+theorem seek_item_of_lt [Inhabited κ] {cmp : κ → κ → Ordering} (hc : TotalPreorder cmp) (t : Tree κ ν) (h : WF cmp t)
+    (hne : t.height = 0 ∨ t.root ≠ []) {p : κ → Bool} (hp : Mono cmp p) (lo : List Nat)
+    (hlo : seekPath (psearch p) t.height t.root = some lo) (hlt : rankP p t.flatten < t.flatten.length) :
+    (pathItem t.height t.root lo).isSome = true := by
+  have hfalse : Mono cmp (fun _ : κ => false) := fun _ _ _ h => by cases h
+  have ha := seek_ordinal_refines hc t h hne p hp
+  have hb := seek_ordinal_refines hc t h hne _ hfalse
+  unfold Tree.seekOrdinal at ha hb
+  rw [hlo] at ha
+  cases hhi : seekPath (psearch (fun _ : κ => false)) t.height t.root with
+  | none => rw [hhi] at hb; cases hb
+  | some hi =>
+    rw [hhi] at hb
+    simp only at ha hb
+    rw [rankP_false] at hb
+    have hcur := search_cursors_consistent hc t h hne hp hfalse lo hi hlo hhi
+    by_cases hcmp : cmpPath lo hi = .lt
+    · exact hcur.2 hcmp
+    · have := hcur.1 hcmp _ _ ha hb; omega
+
+theorem wf_flatten_ne [Inhabited κ] {cmp : κ → κ → Ordering} (t : Tree κ ν) (h : WF cmp t) (hroot : t.root ≠ []) :
+    t.flatten ≠ [] := by
+  obtain ⟨pre, kv, hfl, _⟩ := flatten_last t.height t.root h.node hroot
+  show flatten t.height t.root ≠ []
+  rw [hfl]; simp
+
+/-- **`IterAll` yields exactly the dictionary, in key order** (cursor at start … `newCursorPastEnd`);
+`IterAllReverse` yields it reversed. -/
+theorem iterAll_refines [Inhabited κ] {cmp : κ → κ → Ordering} (hc : TotalPreorder cmp) (t : Tree κ ν) (h : WF cmp t)
+    (hne : t.height = 0 ∨ t.root ≠ []) : t.iterAll = some t.flatten := by
+  by_cases hroot : t.root = []
+  · obtain ⟨ht, root⟩ := t
+    simp only at hroot hne
+    subst hroot
+    have h0 : ht = 0 := by rcases hne with h0 | h0; exact h0; exact absurd rfl h0
+    subst h0
+    rfl
+  · have hflne := wf_flatten_ne t h hroot
+    have hN : 0 < t.flatten.length := List.length_pos_iff.mpr hflne
+    have hlo := seekPath_true t.height t.root h.node hne
+    have ha := seek_ordinal_refines hc t h hne _ (mono_true cmp)
+    unfold Tree.seekOrdinal at ha
+    rw [hlo, rankP_true] at ha
+    simp only at ha
+    have hitem := seek_item_of_lt hc t h hne (mono_true cmp) _ hlo (by rw [rankP_true]; exact hN)
+    obtain ⟨kv, hkv⟩ := Option.isSome_iff_exists.mp hitem
+    have hb := pastEndPath_ordinal t.height t.root h.node hne
+    have hcmp : cmpPath (startPath t.height) (pastEndPath t.height t.root) = .lt := by
+      have : startPath t.height = 0 :: List.replicate t.height 0 := by simp [startPath, List.replicate_succ]
+      rw [this]; exact cmpPath_pastEnd_lt t.height t.root 0 _ (List.length_pos_iff.mpr hroot)
+    unfold Tree.iterAll Tree.iterPaths
+    simp only [hcmp, bne_self_eq_false, Bool.false_eq_true, if_false, hkv, ha, hb, Tree.slice]
+    have hfl : flatten t.height t.root = t.flatten := rfl
+    rw [hfl]
+    simp [hN]
+
+theorem iterAllReverse_refines [Inhabited κ] {cmp : κ → κ → Ordering} (hc : TotalPreorder cmp) (t : Tree κ ν)
+    (h : WF cmp t) (hne : t.height = 0 ∨ t.root ≠ []) : t.iterAllReverse = some t.flatten.reverse := by
+  unfold Tree.iterAllReverse; rw [iterAll_refines hc t h hne]; rfl
+
+/-- **`IterKeyRange(nil, stop)`**: everything below the first key ≥ `stop` -/
+theorem iterKeyRange_open_start [Inhabited κ] {cmp : κ → κ → Ordering} (hc : TotalPreorder cmp) (t : Tree κ ν)
+    (h : WF cmp t) (hne : t.height = 0 ∨ t.root ≠ []) (b : κ) :
+    t.iterKeyRange cmp none (some b) = some (t.slice 0 (rank cmp t.flatten b)) := by
+  have hLo := mono_true (κ := κ) cmp
+  have hHi := mono_searchForKey hc b
+  have hlo := seekPath_true t.height t.root h.node hne
+  have ha := seek_ordinal_refines hc t h hne _ hLo
+  have hb := seek_ordinal_refines hc t h hne _ hHi
+  rw [rankP_true] at ha
+  rw [rankP_searchForKey] at hb
+  unfold Tree.seekOrdinal at ha hb
+  rw [hlo] at ha
+  rw [← searchForKey_eq_psearch] at hb
+  unfold Tree.iterKeyRange Tree.keyRangePaths Tree.atKeyPath
+  cases hhi : seekPath (searchForKey cmp b) t.height t.root with
+  | none => rw [hhi] at hb; cases hb
+  | some hi =>
+    rw [hhi] at hb
+    simp only at ha hb
+    have hcur := search_cursors_consistent hc t h hne hLo hHi _ hi hlo
+      (by rw [← searchForKey_eq_psearch]; exact hhi)
+    simp only [bind, Option.bind, pure, hhi]
+    unfold Tree.iterPaths
+    by_cases hcmp : cmpPath (startPath t.height) hi = .lt
+    · obtain ⟨kv, hkv⟩ := Option.isSome_iff_exists.mp (hcur.2 hcmp)
+      simp only [hcmp, bne_self_eq_false, Bool.false_eq_true, if_false, hkv, ha, hb]
+    · have hle := hcur.1 hcmp _ _ ha hb
+      have hne' : (cmpPath (startPath t.height) hi != .lt) = true := by simpa using hcmp
+      simp only [hne', if_true, Option.some.injEq]
+      unfold Tree.slice
+      have : ¬ (0 < rank cmp t.flatten b) := by omega
+      simp [this]
+
+/-- **`IterKeyRange(start, nil)`**: everything from the first key ≥ `start` — PROVIDED some key is
+≥ `start` (`hsome`).  Without it this is the known finding
+`prollymap/iter-key-range/start-past-last-key-open-stop`: `newCursorPastEnd` is not a search cursor,
+`compareCursors` says `lo < hi` and the iterator dereferences a past-the-end cursor (the model
+returns `none` = panic there, as the code does). -/
+theorem iterKeyRange_open_stop [Inhabited κ] {cmp : κ → κ → Ordering} (hc : TotalPreorder cmp) (t : Tree κ ν)
+    (h : WF cmp t) (hne : t.height = 0 ∨ t.root ≠ []) (a : κ)
+    (hsome : rank cmp t.flatten a < t.flatten.length) :
+    t.iterKeyRange cmp (some a) none = some (t.flatten.drop (rank cmp t.flatten a)) := by
+  have hLo := mono_searchForKey hc a
+  have ha := seek_ordinal_refines hc t h hne _ hLo
+  rw [rankP_searchForKey] at ha
+  unfold Tree.seekOrdinal at ha
+  rw [← searchForKey_eq_psearch] at ha
+  unfold Tree.iterKeyRange Tree.keyRangePaths Tree.atKeyPath
+  cases hlo : seekPath (searchForKey cmp a) t.height t.root with
+  | none => rw [hlo] at ha; cases ha
+  | some lo =>
+    rw [hlo] at ha
+    simp only at ha
+    have hitem := seek_item_of_lt hc t h hne hLo lo (by rw [← searchForKey_eq_psearch]; exact hlo)
+      (by rw [rankP_searchForKey]; exact hsome)
+    obtain ⟨kv, hkv⟩ := Option.isSome_iff_exists.mp hitem
+    have hb := pastEndPath_ordinal t.height t.root h.node hne
+    -- the root index of a search cursor is in bounds, that of `newCursorPastEnd` is `Count`
+    have hcmp : cmpPath lo (pastEndPath t.height t.root) = .lt := by
+      obtain ⟨ht, root⟩ := t
+      cases ht with
+      | zero =>
+        simp only [seekPath, Option.some.injEq] at hlo
+        subst hlo
+        simp only [pathOrdinal, Option.some.injEq] at ha
+        have hl : (Tree.flatten ⟨0, root⟩).length = root.length := rfl
+        rw [hl] at hsome
+        exact cmpPath_pastEnd_lt 0 root _ [] (by rw [ha]; exact hsome)
+      | succ n =>
+        obtain ⟨it, rest, hg, _, hp⟩ := seekPath_succ_some _ n root lo hlo
+        rw [hp]
+        exact cmpPath_pastEnd_lt (n+1) root _ rest (List.getElem?_eq_some_iff.mp hg).1
+    simp only [bind, Option.bind, pure, hlo]
+    unfold Tree.iterPaths
+    simp only [hcmp, bne_self_eq_false, Bool.false_eq_true, if_false, hkv, ha, hb, Tree.slice, hsome, if_true,
+      Option.some.injEq]
+    have hfl : flatten t.height t.root = t.flatten := rfl
+    rw [hfl, List.take_of_length_le (by rw [List.length_drop]; exact Nat.le_refl _)]
+    simp [hsome]
+
+/-- `GetKeyRangeCardinality` with open ends -/
+theorem cardinality_refines_open [Inhabited κ] {cmp : κ → κ → Ordering} (hc : TotalPreorder cmp) (t : Tree κ ν)
+    (h : WF cmp t) (hne : t.height = 0 ∨ t.root ≠ []) (k : κ) :
+    t.keyRangeCardinality cmp none (some k) = some (rank cmp t.flatten k) ∧
+    t.keyRangeCardinality cmp (some k) none = some (t.flatten.length - rank cmp t.flatten k) ∧
+    t.keyRangeCardinality cmp none none = some t.flatten.length := by
+  have hk := ordinal_refines hc t h hne k
+  unfold Tree.ordinalForKey Tree.seekOrdinal at hk
+  have hlo := seekPath_true t.height t.root h.node hne
+  have h0 := seek_ordinal_refines hc t h hne _ (mono_true cmp)
+  unfold Tree.seekOrdinal at h0
+  rw [hlo, rankP_true] at h0
+  simp only at h0
+  have hN := pastEndPath_ordinal t.height t.root h.node hne
+  have hfl : (flatten t.height t.root).length = t.flatten.length := rfl
+  rw [hfl] at hN
+  unfold Tree.keyRangeCardinality Tree.keyRangePaths Tree.atKeyPath
+  cases hp : seekPath (searchForKey cmp k) t.height t.root with
+  | none => rw [hp] at hk; cases hk
+  | some pk =>
+    rw [hp] at hk
+    simp only at hk
+    refine ⟨?_, ?_, ?_⟩
+    · simp only [bind, Option.bind, pure, hp, h0, hk]; simp
+    · simp only [bind, Option.bind, pure, hp, hk, hN, Option.some.injEq]
+      have : rank cmp t.flatten k ≤ t.flatten.length := (List.takeWhile_sublist _).length_le
+      split <;> omega
+    · simp only [bind, Option.bind, pure, h0, hN]; simp
+
 /-- **`IterOrdinalRange(start, stop)` refines the dictionary**: for `start < stop ≤ Count` it
 yields exactly the entries at positions `start … stop-1` (cursor at ordinal `start`, stop cursor at
 ordinal `stop`, `newCursorPastEnd` when `stop = Count`); the degenerate and error cases are as
@@ -569,6 +757,164 @@ theorem mutable_refines_safe {σ : Type} [Inhabited κ] [BEq κ] [BEq ν] [Lawfu
     (hrun : MutMap.run C cmp { tree := t, maxPending := maxPending } ops = .ok m') :
     m'.content cmp = SortedDict.run cmp t.flatten ops :=
   mutable_refines_partial hc (flushRefines_wf C hc) t.flatten hgood.1.sorted t hgood rfl maxPending ops m' hsafe hrun
+
+/-! ### reads of a mutable map: pending edits overlay the tree -/
+
+/-- **`MutableMap.Get`/`Has` refine the dictionary lookup on the presented content**: the pending
+edit for the key, if any, decides (a pending delete hides the tree's entry, a pending put replaces
+it); otherwise the tree's entry — for every well-formed static tree and every pending list. -/
+theorem mget_refines [Inhabited κ] {cmp : κ → κ → Ordering} (hc : TotalPreorder cmp) (m : MutMap κ ν)
+    (hgood : GoodTree cmp m.tree) (k : κ) :
+    m.get cmp k = SortedDict.lookup cmp (m.content cmp) k := by
+  have hview := viewL_sorted (ν := ν) hc m.edits.log
+  have hl := lookup_applyEdits hc k (viewL cmp m.edits.log) m.tree.flatten hgood.1.sorted hview
+  have hcontent : m.content cmp = applyEdits cmp m.tree.flatten (viewL cmp m.edits.log) := rfl
+  have hget : m.edits.get cmp k = editFor cmp (viewL cmp m.edits.log) k := rfl
+  unfold MutMap.get
+  rw [hcontent, hl, hget, get_refines hc m.tree hgood.1 k]
+  cases editFor cmp (viewL cmp m.edits.log) k with
+  | none => rfl
+  | some e =>
+    obtain ⟨k', ov⟩ := e
+    cases ov <;> rfl
+
+/-- the tree part of a range iterator: the window between the two cursor ordinals -/
+theorem range_iterPaths [Inhabited κ] {cmp : κ → κ → Ordering} (hc : TotalPreorder cmp) (t : Tree κ ν)
+    (h : WF cmp t) (hne : t.height = 0 ∨ t.root ≠ []) {pLo pHi : κ → Bool} (hLo : Mono cmp pLo) (hHi : Mono cmp pHi) :
+    ∃ lo hi, seekPath (psearch pLo) t.height t.root = some lo ∧ seekPath (psearch pHi) t.height t.root = some hi ∧
+      t.iterPaths lo hi = some (t.slice (rankP pLo t.flatten) (rankP pHi t.flatten)) := by
+  have ha := seek_ordinal_refines hc t h hne _ hLo
+  have hb := seek_ordinal_refines hc t h hne _ hHi
+  unfold Tree.seekOrdinal at ha hb
+  cases hlo : seekPath (psearch pLo) t.height t.root with
+  | none => rw [hlo] at ha; cases ha
+  | some lo =>
+    cases hhi : seekPath (psearch pHi) t.height t.root with
+    | none => rw [hhi] at hb; cases hb
+    | some hi =>
+      rw [hlo] at ha; rw [hhi] at hb
+      simp only at ha hb
+      refine ⟨lo, hi, rfl, rfl, ?_⟩
+      have hcur := search_cursors_consistent hc t h hne hLo hHi lo hi hlo hhi
+      unfold Tree.iterPaths
+      by_cases hcmp : cmpPath lo hi = .lt
+      · obtain ⟨kv, hkv⟩ := Option.isSome_iff_exists.mp (hcur.2 hcmp)
+        simp only [hcmp, bne_self_eq_false, Bool.false_eq_true, if_false, hkv, ha, hb]
+      · have hle := hcur.1 hcmp _ _ ha hb
+        have hne' : (cmpPath lo hi != .lt) = true := by simpa using hcmp
+        simp only [hne', if_true, Option.some.injEq]
+        unfold Tree.slice
+        have : ¬ (rankP pLo t.flatten < rankP pHi t.flatten) := by omega
+        simp [this]
+
+/-- **`MutableMap.IterRange` refines the range query on the presented content**: the tree's range
+iterator merged with the pending edits' range iterator (`mutableMapIter`: the pending edit wins on
+equal keys, pending deletes drop the entry) and filtered by `Matches` yields exactly the entries of
+`applyEdits tree-content pending-edits` that match — every bound kind, empty and inverted ranges
+included.  Hypotheses as for `iterRange_refines`, plus `Matches` not separating keys that compare
+equal. -/
+theorem mrange_refines [Inhabited κ] {cmp : κ → κ → Ordering} (hc : TotalPreorder cmp) (m : MutMap κ ν)
+    (hgood : GoodTree cmp m.tree) (fcmp : FieldCmp κ β) (r : List (RangeField β))
+    (hok : ∀ f ∈ r, FieldOk fcmp f)
+    (hLo : Mono cmp (fun k => aboveStart fcmp k 0 r)) (hHi : Mono cmp (fun k => !belowStop fcmp k 0 r))
+    (hcongr : ∀ a b, cmp a b = .eq → rangeMatches fcmp a 0 r = rangeMatches fcmp b 0 r) :
+    m.iterRange cmp fcmp r = some ((m.content cmp).filter (fun kv => rangeMatches fcmp kv.1 0 r)) := by
+  obtain ⟨lo, hi, hlo, hhi, hit⟩ := range_iterPaths hc m.tree hgood.1 hgood.2 hLo hHi
+  have hstart : rangeStartSearch fcmp r = psearch (fun k => aboveStart fcmp k 0 r) := rfl
+  have hstop : rangeStopSearch fcmp r = psearch (fun k => !belowStop fcmp k 0 r) := rfl
+  have hview := viewL_sorted (ν := ν) hc m.edits.log
+  have hmk : ∀ x, rangeMatches fcmp x 0 r = true →
+      aboveStart fcmp x 0 r = true ∧ (!belowStop fcmp x 0 r) = false := by
+    intro x hx
+    obtain ⟨h1, h2⟩ := range_predicates_consistent fcmp x r 0 hok hx
+    exact ⟨h1, by simp [h2]⟩
+  -- the two windows
+  have hW := window_filter (pLo := fun k => aboveStart fcmp k 0 r) hHi m.tree.flatten hgood.1.sorted
+    (fun kv => rangeMatches fcmp kv.1 0 r) (fun x hx => hmk x.1 hx)
+  have hM := mem_window_filter (pLo := fun k => aboveStart fcmp k 0 r) hHi (viewL cmp m.edits.log) hview
+    (fun k => rangeMatches fcmp k 0 r) hmk
+  have hbelow : (fun e : κ × Option ν => !(!belowStop fcmp e.1 0 r)) = (fun e => belowStop fcmp e.1 0 r) := by
+    funext e; simp
+  rw [hbelow] at hM
+  -- sortedness of the windows
+  have hWs : Sorted cmp (m.tree.slice (rankP (fun k => aboveStart fcmp k 0 r) m.tree.flatten)
+      (rankP (fun k => !belowStop fcmp k 0 r) m.tree.flatten)) := by
+    unfold Tree.slice
+    split
+    · exact List.Pairwise.sublist ((List.take_sublist _ _).trans (List.drop_sublist _ _)) hgood.1.sorted
+    · exact List.Pairwise.nil
+  have hMs : (((viewL cmp m.edits.log).dropWhile (fun e => !aboveStart fcmp e.1 0 r)).takeWhile
+      (fun e => belowStop fcmp e.1 0 r)).Pairwise (fun a b => cmp a.1 b.1 = .lt) :=
+    List.Pairwise.sublist ((List.takeWhile_sublist _).trans (List.dropWhile_sublist _)) hview
+  unfold MutMap.iterRange
+  rw [hstart, hstop, hlo, hhi]
+  simp only [hit]
+  congr 1
+  have hview' : m.edits.view cmp = viewL cmp m.edits.log := rfl
+  rw [hview', mergeIter_eq_applyEdits hc _ _ _ (Nat.le_refl _)]
+  rw [filter_applyEdits hc (fun k => rangeMatches fcmp k 0 r) hcongr _ _ hWs hMs]
+  have hW' : (m.tree.slice (rankP (fun k => aboveStart fcmp k 0 r) m.tree.flatten)
+      (rankP (fun k => !belowStop fcmp k 0 r) m.tree.flatten)).filter (fun kv => rangeMatches fcmp kv.1 0 r)
+      = m.tree.flatten.filter (fun kv => rangeMatches fcmp kv.1 0 r) := hW
+  rw [hW', hM]
+  have hcontent : m.content cmp = applyEdits cmp m.tree.flatten (viewL cmp m.edits.log) := rfl
+  rw [hcontent, filter_applyEdits hc (fun k => rangeMatches fcmp k 0 r) hcongr _ _ hgood.1.sorted hview]
+
+/-- **`MutableMap.IterAll`** (= `IterRange` of the empty range) yields the presented content -/
+theorem mall_refines [Inhabited κ] {cmp : κ → κ → Ordering} (hc : TotalPreorder cmp) (m : MutMap κ ν)
+    (hgood : GoodTree cmp m.tree) (fcmp : FieldCmp κ β) :
+    m.iterRange cmp fcmp ([] : List (RangeField β)) = some (m.content cmp) := by
+  have h := mrange_refines hc m hgood fcmp ([] : List (RangeField β)) (by intro f hf; cases hf)
+    (fun _ _ _ _ => rfl) (fun _ _ _ h => by simp [belowStop] at h) (fun _ _ _ => rfl)
+  rw [h]
+  simp [rangeMatches]
+
+/-- **reads after any safe history**: after every operation sequence satisfying `SafeRun`, for
+every flush threshold, `MutableMap.Get` answers what the sorted dictionary answers. -/
+theorem mget_after_run {σ : Type} [Inhabited κ] [BEq κ] [BEq ν] [LawfulBEq κ] [LawfulBEq ν]
+    {C : Cfg σ κ ν} {cmp : κ → κ → Ordering} (hc : TotalPreorder cmp) (t : Tree κ ν) (hgood : GoodTree cmp t)
+    (maxPending : Nat) (ops : List (MOp κ ν)) (m' : MutMap κ ν)
+    (hsafe : SafeRun C cmp { tree := t, maxPending := maxPending } false ops)
+    (hrun : MutMap.run C cmp { tree := t, maxPending := maxPending } ops = .ok m') (k : κ) :
+    m'.get cmp k = SortedDict.lookup cmp (SortedDict.run cmp t.flatten ops) k := by
+  have hinit : MInv cmp (GoodTree cmp) ({ tree := t, maxPending := maxPending } : MutMap κ ν) ⟨t.flatten, t.flatten⟩ false := {
+    goodTree := hgood
+    sortedTree := hgood.1.sorted
+    cur := rfl
+    cpLe := Nat.le_refl _
+    aliasCp := fun ha => by cases ha
+    unseen := fun _ => ⟨rfl, rfl, rfl⟩
+    stashOk := fun s hs' _ => by cases hs'
+    liveOk := fun hseen _ => by cases hseen }
+  obtain ⟨seen', hinv⟩ := mutable_run_inv hc (flushRefines_wf C hc) ops _ m' _ false hinit hsafe hrun
+  rw [mget_refines hc m' hinv.goodTree k]
+  have : m'.content cmp = SortedDict.run cmp t.flatten ops := hinv.cur
+  rw [this]
+
+/-- the same for `MutableMap.IterRange` -/
+theorem mrange_after_run {σ : Type} [Inhabited κ] [BEq κ] [BEq ν] [LawfulBEq κ] [LawfulBEq ν]
+    {C : Cfg σ κ ν} {cmp : κ → κ → Ordering} (hc : TotalPreorder cmp) (t : Tree κ ν) (hgood : GoodTree cmp t)
+    (maxPending : Nat) (ops : List (MOp κ ν)) (m' : MutMap κ ν)
+    (hsafe : SafeRun C cmp { tree := t, maxPending := maxPending } false ops)
+    (hrun : MutMap.run C cmp { tree := t, maxPending := maxPending } ops = .ok m')
+    (fcmp : FieldCmp κ β) (r : List (RangeField β)) (hok : ∀ f ∈ r, FieldOk fcmp f)
+    (hLo : Mono cmp (fun k => aboveStart fcmp k 0 r)) (hHi : Mono cmp (fun k => !belowStop fcmp k 0 r))
+    (hcongr : ∀ a b, cmp a b = .eq → rangeMatches fcmp a 0 r = rangeMatches fcmp b 0 r) :
+    m'.iterRange cmp fcmp r
+      = some ((SortedDict.run cmp t.flatten ops).filter (fun kv => rangeMatches fcmp kv.1 0 r)) := by
+  have hinit : MInv cmp (GoodTree cmp) ({ tree := t, maxPending := maxPending } : MutMap κ ν) ⟨t.flatten, t.flatten⟩ false := {
+    goodTree := hgood
+    sortedTree := hgood.1.sorted
+    cur := rfl
+    cpLe := Nat.le_refl _
+    aliasCp := fun ha => by cases ha
+    unseen := fun _ => ⟨rfl, rfl, rfl⟩
+    stashOk := fun s hs' _ => by cases hs'
+    liveOk := fun hseen _ => by cases hseen }
+  obtain ⟨seen', hinv⟩ := mutable_run_inv hc (flushRefines_wf C hc) ops _ m' _ false hinit hsafe hrun
+  rw [mrange_refines hc m' hinv.goodTree fcmp r hok hLo hHi hcongr]
+  have : m'.content cmp = SortedDict.run cmp t.flatten ops := hinv.cur
+  rw [this]
 
 /-- **`checkpoint_revert`** (corollary): under the same hypotheses, whatever happens between a
 checkpoint and the revert — including flushes — the map is back at the checkpointed content. -/
